@@ -80,16 +80,45 @@ def run(run):
             b = parent
         return out
 
+    def call_filter(x):
+        """a filter / filter_map whose closure keeps an element exactly when it is a Jmp::Call (the direct-call test written
+        as an iterator adaptor)"""
+        if not (T.is_call(x, ("filter_map", "filter")) and len(x.get("a", [])) == 2 and T.peel(x["a"][1]).get("k") == "Closure"):
+            return False
+        c = F.by_path.get(T.peel(x["a"][1])["d"])
+        if c is None:
+            return False
+        keeps = T.paths_to(c["body"], lambda y: (y.get("k") == "Adt" and y.get("adt", "").endswith("option::Option") and y.get("v") == "Some") or (y.get("k") == "Lit" and str(y.get("v")).lower() == "true"))
+        if not keeps:
+            return False
+        for n_, conds in keeps:
+            ok_ = False
+            rest = []
+            for cd in conds:
+                if cd[0] == "arm" and T.pat_variant_names(cd[2]["p"]) == {"Call"} and (F.ty(cd[1]["e"]) or "").replace("&", "").strip().endswith("jmp::Jmp"):
+                    ok_ = True
+                elif cd[0] == "if" and T.peel(cd[1]).get("k") == "Let" and T.pat_variant_names(T.peel(cd[1])["p"]) == {"Call"} and cd[2] is True:
+                    ok_ = True
+                else:
+                    rest.append(cd)
+            if not ok_ or rest:
+                return False
+        return True
+
     def fields_and_adaptors(fn, exprs):
         roots = B.bodies(F, fn)
-        fields, adapt = set(), []
+        fields, adapt, callfilters = set(), [], []
         for e in exprs:
-            for src, how in B.sources(F, roots, e):
+            for src, how in B.sources(F, roots, e, follow_calls=True):
                 for x in B.walk_with_closures(F, src):
                     if x.get("k") == "Field" and x.get("fn"):
                         fields.add(x["fn"])
                     if T.is_call(x, RESTRICT):
-                        adapt.append(x["n"])
+                        if call_filter(x):
+                            callfilters.append(x)
+                        else:
+                            adapt.append(x["n"])
+        fields_and_adaptors.callfilters = callfilters
         return fields, adapt
 
     def is_desugar_cond(cd):
@@ -127,8 +156,18 @@ def run(run):
         run.check("R1", "edges|all-subs-blocks-jumps", {"subs", "blocks", "jmps"} <= fields and not adapt and not hard_exits, "the edge construction must visit every jump of every block of every function (iterates over fields %s, restricting adaptors %s, exits %d)" % (sorted(fields & {"subs", "blocks", "jmps"}), adapt, len(hard_exits)), site)
         run.check("R1", "edges|parallel-calls-kept", n["n"] == "add_edge", "two calls from f to g are two calls: edges must be added with add_edge (update_edge merges them)", F.loc(n))
         # path condition of the construction site
-        target_ids = {b_[0] for b_ in SL.slot_bindings(F, f, "jmp::Jmp", "Call", "target")}
-        callpat = member = False
+        # locals that may hold the target of a direct call: the slot bindings (in the function or a helper that enumerates the
+        # calls) and everything they flow into
+        from .lib import mayflow as MF
+        mf = MF.MayFlow(F)
+        mf.add(f, set())
+        for g_ in [f] + [F.by_path[x.get("r") or x.get("f")] for x in T.walk_fn(F, f) if x.get("k") == "Call" and (x.get("r") or x.get("f")) in F.by_path and F.by_path[x.get("r") or x.get("f")].get("dk") in ("Fn", "AssocFn")]:
+            for b_ in SL.slot_bindings(F, g_, "jmp::Jmp", "Call", "target"):
+                mf.add(g_, {b_[0]})
+        mf.solve()
+        target_ids = set(mf.reached.get(f["path"], set()))
+        callpat = bool(getattr(fields_and_adaptors, "callfilters", []))
+        member = False
         others = []
         paths = T.paths_to(own["body"], lambda y: y is n)
         conds = paths[0][1] if paths else []
